@@ -293,7 +293,12 @@ int main(int argc, char* const* argv)
     CScript::const_iterator it = env->script.begin();
     opcodetype opcode;
     valtype vchPushValue, p2sh_script_payload;
-    while (env->script.GetOp(it, opcode, vchPushValue)) { p2sh_script_payload = vchPushValue; ++count; }
+    while (env->script.GetOp(it, opcode, vchPushValue)) {
+        p2sh_script_payload = vchPushValue;
+        // OP_1NEGATE and OP_1..OP_16 carry no push data but leave a one-byte item - the redeem script, if they come last
+        if (opcode == OP_1NEGATE || (opcode >= OP_1 && opcode <= OP_16)) p2sh_script_payload = CScriptNum((int)opcode - (int)(OP_1 - 1)).getvch();
+        ++count;
+    }
 
     std::vector<std::string> tc_desc;
     CScript p2sh_script;
